@@ -701,7 +701,13 @@ def check_itp_orientation(F, run, b, loop):
         if not p.fell_through:
             continue
         cur = {nm: p.interp.env.get(i) for i, nm in p.interp.names.items()}
-        nh, nm_, l_, r_ = cur.get("n_half"), cur.get("n_max"), cur.get("left"), cur.get("right")
+        nm_, l_, r_ = cur.get("n_max"), cur.get("left"), cur.get("right")
+        # n_1/2 is the ceil(log2(·)) term of n_max (whether or not it has a local of its own)
+        nh = None
+        if hasattr(nm_, "atoms"):
+            cands = [a for a in nm_.atoms(sp.Function) if str(a.func) == "ceil"]
+            if len(cands) == 1:
+                nh = cands[0]
         ok_nh = False
         if nh is not None and str(getattr(nh, "func", "")) == "ceil" and str(getattr(nh.args[0], "func", "")) == "log2":
             arg = nh.args[0].args[0]
